@@ -248,6 +248,6 @@ def classify(v, case):
     if v["mech"] == "unexpected_exception" and "tx:" in v["detail"].get("trace", ""):
         combo = v["detail"]["combo"]
         if (combo[2] == 2 and combo[0] >= 2 and combo[1] in (None, "cffsubr")
-                and not any(g["contours"] for g in case["ufo"]["glyphs"])):
+                and not any(len(c) > 1 for g in case["ufo"]["glyphs"] for c in g["contours"])):  # no path: tx discards single-point contours
             return "cffsubr_cff2_all_glyphs_empty"
     return None
